@@ -16,6 +16,7 @@ import (
 	"os"
 	"os/exec"
 	"path/filepath"
+	"regexp"
 	"sort"
 	"strconv"
 	"strings"
@@ -189,6 +190,99 @@ func validate(bm *bondmachine.Bondmachine) (string, string) {
 	return "", ""
 }
 
+var ioattRe = regexp.MustCompile(`(?m)^%meta\s+ioatt\s+(\S+)\s+(.*)$`)
+
+// ioAdequacy checks the emitted machine against the I/O metadata of a plain (fragment-free) source:
+// every external port the source attaches must exist and be bonded, and every two-ended ioatt name
+// must have become one bond. CP endpoints are counted, not named (the numbering of processors is the
+// assembler's business).
+func ioAdequacy(src string, bm *bondmachine.Bondmachine) (string, string) {
+	type end struct {
+		cp, typ string
+		idx     int
+	}
+	names := map[string][]end{}
+	for _, m := range ioattRe.FindAllStringSubmatch(src, -1) {
+		e := end{idx: -1}
+		for _, kv := range strings.Split(m[2], ",") {
+			k, v, ok := strings.Cut(kv, ":")
+			if !ok {
+				continue
+			}
+			k, v = strings.TrimSpace(k), strings.TrimSpace(v)
+			switch k {
+			case "cp":
+				e.cp = v
+			case "type":
+				e.typ = v
+			case "index":
+				e.idx, _ = strconv.Atoi(v)
+			}
+		}
+		if e.cp == "" || e.idx < 0 || (e.typ != "input" && e.typ != "output") {
+			return "", "" // a form this parser does not know: not judged
+		}
+		names[m[1]] = append(names[m[1]], e)
+	}
+	bonded := map[string]bool{}
+	nb := 0
+	for _, b := range bm.List_bonds() {
+		nb++
+		for _, ep := range strings.Split(b, ",") {
+			bonded[ep] = true
+		}
+	}
+	// the instruction lines of the source (a CP port that no instruction uses is not created by the
+	// assembler; attaching it is the source's inconsistency, not judged here)
+	var code []string
+	for _, l := range strings.Split(src, "\n") {
+		if !strings.HasPrefix(strings.TrimSpace(l), "%") {
+			code = append(code, l)
+		}
+	}
+	portUsed := func(tok string) bool {
+		re := regexp.MustCompile(`(^|[\s,])` + tok + `($|[\s,])`)
+		for _, l := range code {
+			if re.MatchString(l) {
+				return true
+			}
+		}
+		return false
+	}
+	pairs := 0
+	for n, es := range names {
+		if len(es) != 2 {
+			return "", "" // not a plain two-ended attachment: not judged
+		}
+		judged := true
+		for _, e := range es {
+			if e.cp != "bm" && !portUsed(fmt.Sprintf("%c%d", e.typ[0], e.idx)) {
+				judged = false
+			}
+		}
+		if !judged {
+			continue
+		}
+		pairs++
+		for _, e := range es {
+			if e.cp != "bm" {
+				continue
+			}
+			ep := fmt.Sprintf("%c%d", e.typ[0], e.idx)
+			if e.typ == "input" && e.idx >= bm.Inputs || e.typ == "output" && e.idx >= bm.Outputs {
+				return "external-port-missing", fmt.Sprintf("the source attaches %s (ioatt %s) but the machine has %d inputs and %d outputs", ep, n, bm.Inputs, bm.Outputs)
+			}
+			if !bonded[ep] {
+				return "external-port-not-bonded", fmt.Sprintf("the source attaches %s (ioatt %s) but no bond of the machine ends there: %v", ep, n, bm.List_bonds())
+			}
+		}
+	}
+	if nb < pairs {
+		return "bond-count", fmt.Sprintf("the source has %d two-ended ioatt names whose CP ports are used by the code, the machine has %d bonds: %v", pairs, nb, bm.List_bonds())
+	}
+	return "", ""
+}
+
 func runTool(bin string, dir string, tool string, args []string, files map[string]string, timeout time.Duration) (string, error) {
 	os.MkdirAll(dir, 0o755)
 	for n, c := range files {
@@ -299,8 +393,18 @@ func main() {
 			default:
 				src += "%meta cpdef cpu romcode: prog\n"
 			}
-			src += "%meta ioatt tin cp: cpu, index:0, type:input\n%meta ioatt tin cp: bm, index:0, type:input\n" +
-				"%meta ioatt tout cp: cpu, index:0, type:output\n%meta ioatt tout cp: bm, index:0, type:output\n%meta bmdef global registersize:8\n"
+			// only ports that the CP's own code uses are attached (a vn CP runs the RAM section only)
+			used := rom + ram
+			if mode == "vn" {
+				used = ram
+			}
+			if strings.Contains(used, "i0") {
+				src += "%meta ioatt tin cp: cpu, index:0, type:input\n%meta ioatt tin cp: bm, index:0, type:input\n"
+			}
+			if strings.Contains(used, "o0") {
+				src += "%meta ioatt tout cp: cpu, index:0, type:output\n%meta ioatt tout cp: bm, index:0, type:output\n"
+			}
+			src += "%meta bmdef global registersize:8\n"
 			cs = append(cs, srcCase{Name: fmt.Sprintf("execmode-%s-shared-opcodes-%v", mode, share), Opt: "nodyn", Class: "execmode", Src: src})
 		}
 	}
@@ -317,6 +421,23 @@ func main() {
 		cs = append(cs, srcCase{Name: fmt.Sprintf("highport-%d", k), Opt: "nodyn", Class: "boundary-ports",
 			Src: prog(16, []string{fmt.Sprintf("mov r0, i%d", k-1), fmt.Sprintf("mov o%d, r0", k-1)}, k, k)})
 	}
+	// external ports that only the I/O metadata mentions: a BM input wired straight to a BM output next
+	// to a CP using i0/o0, the pair listed input-first and output-first, at several indices; an
+	// external input feeding two CPs
+	for _, k := range []int{1, 2, 3, 4} {
+		for _, inFirst := range []bool{true, false} {
+			a := fmt.Sprintf("%%meta ioatt thru cp:bm, type:input, index:%d\n", k)
+			b := fmt.Sprintf("%%meta ioatt thru cp:bm, type:output, index:%d\n", k)
+			if !inFirst {
+				a, b = b, a
+			}
+			body := []string{"mov r0, i0", "inc r0", "mov o0, r0"}
+			for j := 1; j < k; j++ {
+				body = append(body, fmt.Sprintf("mov r1, i%d", j), fmt.Sprintf("mov o%d, r1", j))
+			}
+			cs = append(cs, srcCase{Name: fmt.Sprintf("passthrough-%d-inputfirst-%v", k, inFirst), Opt: "nodyn", Class: "io-metadata", Src: prog(8, body, k, k) + a + b})
+		}
+	}
 	for _, rs := range []int{8, 16, 32} {
 		max := uint64(1)<<uint(rs) - 1
 		cs = append(cs, srcCase{Name: fmt.Sprintf("maximm-%d", rs), Opt: "nodyn", Class: "boundary-immediate", Src: prog(rs, []string{fmt.Sprintf("mov r0, %d", max), "mov o0, r0"}, 0, 1)})
@@ -329,6 +450,14 @@ func main() {
 	cs = append(cs, srcCase{Name: "regsize-300", Opt: "nodyn", Class: "register-size", MustReject: true, Src: prog(300, []string{"inc r0", "mov o0, r0"}, 0, 1)})
 
 	judge := func(name, class string, bm *bondmachine.Bondmachine, w map[string]any) {
+		if src, _ := w["source"].(string); src != "" && strings.Contains(src, "%meta ioatt") && !strings.Contains(src, "%fragment") && !strings.Contains(src, "filinkatt") {
+			if cls, detail := ioAdequacy(src, bm); cls != "" {
+				w["what"] = detail
+				run.Violation("malformed-machine:"+cls+":"+class, w)
+				return
+			}
+			run.Tally("io_metadata_checked_by_source", class)
+		}
 		cls, detail := func() (c, d string) {
 			defer func() {
 				if r := recover(); r != nil {
